@@ -290,18 +290,26 @@ class MapperEnv(object):
         except Exception:            # noqa
             self.connection._connections.pop(self.CONN, None)
 
-    def model(self, tys):
-        """Model with partition key columns k1..kn of the given types (declaration order = key order), one
-        clustering column ck (int) and one regular column v (int)."""
+    def model(self, tys, layout="keys_first", ck_type="int"):
+        """Model with partition key columns k1..kn of the given types (their declaration order = key order), one
+        clustering column ck of type ck_type and one regular column v (int).  layout says where ck is DECLARED:
+        after the partition key columns (keys_first), before them (clustering_first) or after k1 (clustering_between).
+        cqlengine orders columns by creation, so the column objects are created in declaration order."""
         tys = tuple(tys)
-        if tys in self._models:
-            return self._models[tys]
+        key = (tys, layout, ck_type)
+        if key in self._models:
+            return self._models[key]
         cols = self.columns
-        attrs = {"__keyspace__": KS, "__table_name__": "m_" + "_".join(tys), "__connection__": self.CONN}
-        for i, ty in enumerate(tys, 1):
-            attrs["k%d" % i] = getattr(cols, _MAPPER_COLUMNS[ty])(partition_key=True)
-        attrs["ck"] = cols.Integer(primary_key=True)
+        name = "_".join(tys) + ("" if layout == "keys_first" else "__%s_%s" % (layout, ck_type))
+        attrs = {"__keyspace__": KS, "__table_name__": "m_" + name, "__connection__": self.CONN}
+        order = ["k%d" % i for i in range(1, len(tys) + 1)]
+        order.insert({"keys_first": len(tys), "clustering_first": 0, "clustering_between": 1}[layout], "ck")
+        for col in order:
+            if col == "ck":
+                attrs["ck"] = getattr(cols, _MAPPER_COLUMNS[ck_type])(primary_key=True)
+            else:
+                attrs[col] = getattr(cols, _MAPPER_COLUMNS[tys[int(col[1:]) - 1]])(partition_key=True)
         attrs["v"] = cols.Integer()
-        cls = type("M_" + "_".join(tys), (self.models.Model,), attrs)
-        self._models[tys] = cls
+        cls = type("M_" + name, (self.models.Model,), attrs)
+        self._models[key] = cls
         return cls
